@@ -205,7 +205,9 @@ def conc(world, seed, params):
     rng = random.Random(seed)
     knobs = {'allocation_conflict_retry_count': rng.choice([1, 2, 3, 10])}
     run = C.ConcRun(world, seed, params['focus'], knobs=knobs,
-                    n_batch=params.get('n_batch'))
+                    n_batch=params.get('n_batch'),
+                    n_schedules=params.get('n_schedules', 1),
+                    enumerate_targeted=params.get('enumerate', False))
     findings = run.run()
     out = {'findings': [], 'requests': run.stats['requests'],
            'probes': run.stats['probes'], 'signatures': [], 'states': []}
@@ -213,19 +215,26 @@ def conc(world, seed, params):
         out['probes'] = dict(out['probes'], no_batch=1)
         return out
     kinds = [op['kind'] for op in run.batch]
-    sig = '%s|%s|%s' % ('+'.join(kinds), run.sim.sig, run.statuses)
-    if run.switches >= len(run.batch):
-        # at least one context switch separated two transactions of one
-        # request: a genuinely interleaved execution
-        out['signatures'] = [__import__('hashlib').sha256(
-            sig.encode()).hexdigest()[:16]]
+    import hashlib
+    for e in run.schedule_log:
+        if e['switches'] >= len(run.batch):
+            # at least one context switch separated two transactions of one
+            # request: a genuinely interleaved execution
+            out['signatures'].append(hashlib.sha256((
+                '+'.join(kinds) + e['sig']).encode()).hexdigest()[:16])
+    out['probes'] = dict(out['probes'],
+                         schedules_run=len(run.schedule_log),
+                         distinct_schedules_in_batch=sum(
+                             1 for e in run.schedule_log if e['new']))
     out['by_kind'] = {}
     for k in kinds:
         out['by_kind'][k] = out['by_kind'].get(k, 0) + 1
     out['by_status'] = {}
-    for s in run.statuses:
-        out['by_status'][str(s)] = out['by_status'].get(str(s), 0) + 1
+    for e in run.schedule_log:
+        for s in e['statuses']:
+            out['by_status'][str(s)] = out['by_status'].get(str(s), 0) + 1
     out['log_digest'] = _digest([
+        [(e['schedule'], e['statuses']) for e in run.schedule_log],
         run.setup_ops, [workload.op_brief(op) for op in run.batch],
         run.sim.schedule, run.sim.sig, run.statuses,
         [(e['task'], e['changed'], e['state']) for e in run.sim.commit_log],
@@ -249,7 +258,7 @@ def conc(world, seed, params):
             'setup': run.setup_ops,
             'batch': [dict(workload.op_brief(op), kind=op['kind'])
                       for op in run.batch],
-            'schedule': run.sim.schedule,
+            'schedule': f.pop('schedule', None) or run.sim.schedule,
             'expect': {'rule': f['rule'], 'kind': f['kind']},
         }
         out['findings'].append(f)
